@@ -476,14 +476,24 @@ func (w *World) heapsOfType(t types.Type, into map[string]bool) {
 		return
 	}
 	if arr, ok := t.Underlying().(*types.Array); ok {
-		into["E_"+sortID(w.sortOf(arr.Elem()))] = true
+		into[w.elemHeapName(arr.Elem())] = true
 		return
 	}
 	into["C_"+sortID(w.sortOf(t))] = true
 }
 
+// typeID: heaps are keyed by Go type (two values of different types never alias), with the
+// package path stripped for readability.
+func typeID(t types.Type) string {
+	s := normType(t)
+	s = strings.ReplaceAll(s, "github.com/semihalev/twig.", "")
+	return sanitize(s)
+}
+
+func (w *World) elemHeapName(elem types.Type) string { return "E_" + typeID(elem) }
+
 func (w *World) mapHeapNames(mt *types.Map) (string, string, string) {
-	k, v := sortID(w.sortOf(mt.Key())), sortID(w.sortOf(mt.Elem()))
+	k, v := typeID(mt.Key()), typeID(mt.Elem())
 	return "MD_" + k + "_" + v, "MV_" + k + "_" + v, "ML_" + k + "_" + v
 }
 
@@ -541,7 +551,7 @@ func (w *World) indexAddrHeaps(a *ssa.IndexAddr, into map[string]bool) {
 	default:
 		return
 	}
-	into["E_"+sortID(w.sortOf(elem))] = true
+	into[w.elemHeapName(elem)] = true
 }
 
 // builtinMods handles append/copy/delete/clear.
@@ -557,7 +567,7 @@ func (w *World) builtinMods(c *ssa.CallCommon, includeFresh bool, into map[strin
 				return
 			}
 			if st, ok := c.Args[0].Type().Underlying().(*types.Slice); ok {
-				into["E_"+sortID(w.sortOf(st.Elem()))] = true
+				into[w.elemHeapName(st.Elem())] = true
 			}
 		}
 	case "delete", "clear":
@@ -570,7 +580,7 @@ func (w *World) builtinMods(c *ssa.CallCommon, includeFresh bool, into map[strin
 				into[a], into[bb], into[cc] = true, true, true
 			}
 			if st, ok := c.Args[0].Type().Underlying().(*types.Slice); ok {
-				into["E_"+sortID(w.sortOf(st.Elem()))] = true
+				into[w.elemHeapName(st.Elem())] = true
 			}
 		}
 	}
@@ -582,7 +592,7 @@ func (w *World) stdMods(f *ssa.Function, c *ssa.CallCommon, into map[string]bool
 	mutSlice := func(i int) {
 		if i < len(c.Args) {
 			if st, ok := c.Args[i].Type().Underlying().(*types.Slice); ok {
-				into["E_"+sortID(w.sortOf(st.Elem()))] = true
+				into[w.elemHeapName(st.Elem())] = true
 			}
 		}
 	}
